@@ -339,6 +339,7 @@ func c18Check(c *sim.Ctx, w *world.World) {
 			c.Nontrivial = true
 			c.Probe("scanned-bytes-mutated")
 		}
+		c.State(cache, mutated > 0, t.WithoutRowid, len(t.Rows) > 30)
 		c.Log.Add("H", "mutate", "%s bytes=%d", t.Name, mutated)
 		for _, label := range []string{"same-handle", "fresh-handle"} {
 			h := d
